@@ -20,3 +20,25 @@ claim(
     TB, "symbolic path enumeration of loop bodies and match arms over MIR (recurrence/cursor-delta templates), who-may-construct, dominance of guards",
     "DESIGN.md §2 C08",
 )
+claim(
+    "C04", "other",
+    "No-stall and no-stated-abort clauses of front-end totality: every loop cycle of the CST parser is shown (by symbolic "
+    "enumeration with token-kind knowledge and pruning of infeasible re-tests) to advance the cursor, observe progress "
+    "against a snapshot, be counted / pure look-ahead, or be forced out on the next iteration; the context-sensitive graph of "
+    "parser calls reachable before any consumption is acyclic; no stated-belief abort reachable from the parse/type-check "
+    "entry points outside dead arms, verified eliminating passes or audited guards; entry points return Err when parse errors "
+    "exist; MIR generation only receives inference contexts whose errors were inspected. Implicit panics, stack depth, "
+    "chumsky's tokenizer and span boundaries are not decided.",
+    TB, "abstract interpretation of parser loops (cursor progress domain with token-kind knowledge), recursion-guard graph, abort reachability, dominance of error gates",
+    "DESIGN.md §2 C04",
+)
+claim(
+    "C13", "other",
+    "Linearity of the CST over the token stream, decided on MIR: single writer of the parser cursor (+1 per call) which is also "
+    "the only caller of add_token and adds the token at the old cursor; start_node*/finish_node balanced on every path and loop "
+    "cycle of every parser method; root loop leaves only at end of input (with C04.progress: each non-trivia token enters the tree "
+    "exactly once, in order); trivia: the pending list of the pre-parser loses elements only into the trivia maps; token extents "
+    "come from one span / end marker / tiling chain. The tokenizer's own tiling (chumsky) is not decided.",
+    TB, "typestate/linearity rules over MIR: who-may-write, who-may-call, balanced-pair counting on enumerated paths, sink analysis",
+    "DESIGN.md §2 C13",
+)
